@@ -521,7 +521,7 @@ impl C16 {
                     None
                 }
             };
-            if idx < 2 {
+            if out.samples.len() < 3 {
                 out.sample(json!({"schema": text.chars().take(700).collect::<String>()}));
             }
             items.push(Item { idx, schema, text, gen_code: code });
